@@ -87,6 +87,7 @@ KeyPool(nm) ==
     [] nm = "K3"  -> [kid |-> "k3", cid |-> 7, suites |-> {"s1","s3"},      pub |-> "pubB", cfg |-> "c3", dec |-> TRUE]
     [] nm = "K4"  -> [kid |-> "k4", cid |-> 8, suites |-> {"s1","s2","s3"}, pub |-> "pub",  cfg |-> "c4", dec |-> TRUE]
     [] nm = "K5"  -> [kid |-> "k5", cid |-> 7, suites |-> {"s2"},           pub |-> "pub",  cfg |-> "c5", dec |-> TRUE]
+    [] nm = "K6"  -> [kid |-> "k6", cid |-> 7, suites |-> {"s1","s2","s3"}, pub |-> "pub",  cfg |-> "c6", dec |-> TRUE]
     [] nm = "KX"  -> [kid |-> "kx", cid |-> 7, suites |-> {"s1","s2","s3"}, pub |-> "pub",  cfg |-> "cx", dec |-> FALSE]  \* a held entry whose config bytes do not decode (unknown version): ignored
     [] nm = "K1b" -> [kid |-> "k1", cid |-> 7, suites |-> {"s1","s2","s3"}, pub |-> "pub",  cfg |-> "c1b", dec |-> TRUE]  \* same key material, other config bytes
 
@@ -181,6 +182,7 @@ Apply(op, h) ==
     [] op = "eoeOdd"      -> Reseal(h, [p EXCEPT !.eoe = p.eoe \o << "ODD" >>])
     [] op = "eoeBadLen"   -> Reseal(h, [p EXCEPT !.eoe = << "BADLEN" >> \o p.eoe])
     [] op = "eoeOutOfOrder" -> Reseal(h, [p EXCEPT !.eoe = SwapAt(p.eoe, 1)])
+    [] op = "eoeAmplify"  -> Reseal(h, [p EXCEPT !.eoe = [i \in 1..100 |-> p.eoe[1]]])   \* one outer extension referenced a hundred times
     [] op = "eoeRepeated" -> Reseal(h, [p EXCEPT !.eoe = << p.eoe[1] >> \o p.eoe])
     [] op = "eoeMissing"  -> Reseal(h, [p EXCEPT !.eoe = p.eoe \o << "x9" >>])
     [] op = "eoeRefsEch"  -> Reseal(h, [p EXCEPT !.eoe = p.eoe \o << "ech" >>])
@@ -200,7 +202,7 @@ ApplyK(op, h, k) ==
        IN [h1 EXCEPT !.ech.ct = [h.ech.ct EXCEPT !.aad = Aad(h1)]]
   ELSE Apply(op, h)
 
-NeedsEoe == {"eoeOdd", "eoeBadLen", "eoeRepeated", "eoeMissing", "eoeRefsEch", "eoeRefsEoe", "eoeTwice"}
+NeedsEoe == {"eoeOdd", "eoeBadLen", "eoeRepeated", "eoeAmplify", "eoeMissing", "eoeRefsEch", "eoeRefsEoe", "eoeTwice"}
 NeedsEoe2 == {"eoeOutOfOrder"}
 NoEoeOps == {"eoeRefsSni"}
 Tampers == {"echTrailing", "swap1", "swapLast", "drop2", "addExt", "changeVal", "changeSid", "changeCid", "changeSuite", "otherEnc", "encToOther",
@@ -209,7 +211,7 @@ PassOps == {"noEch", "grease", "no13", "noSv", "unlistedSuite"}
 \* the alert class each illegal hello must be answered with
 ClassOf(op) ==
   CASE op \in {"sniNameType", "innerSniNameType", "innerTypeNo13", "dupEchBefore", "dupEchInnerBefore", "dupEchAfter", "eoeInOuter", "innerTypeInOuter", "badEchType", "emptyEnc", "sniNotPublic", "noOuterSni", "noInnerEch", "outerTypeInInner",
-               "innerNo13", "innerNoSv", "nonZeroPad", "eoeOutOfOrder", "eoeRepeated", "eoeMissing", "eoeRefsEch", "eoeRefsEoe", "eoeTwice"} -> "illegal_parameter"
+               "innerNo13", "innerNoSv", "nonZeroPad", "eoeOutOfOrder", "eoeRepeated", "eoeAmplify", "eoeMissing", "eoeRefsEch", "eoeRefsEoe", "eoeTwice"} -> "illegal_parameter"
     [] op \in {"eoeOdd", "eoeBadLen", "svOdd", "sniTwoNames", "innerSvOdd"} -> "decode_error"
     [] OTHER -> "none"
 \* the draft mandates illegal_parameter for the ECH-specific rules; for merely malformed contents of an extension TLS allows
